@@ -61,9 +61,9 @@ class MarkovCheck(object):
             c['kind'] = 'e2' if k % 2 == 0 else 'fast'
             c['seed'] = cs
             if r.random() < 0.2 and c['tmin'] == 0:
-                # the law is scale-free: the same epidemic in a time unit 1e10 times smaller / 1e8 times larger
+                # the law is scale-free: the same epidemic in a time unit 1e10 (1e14, 1e30) times smaller / 1e8 times larger
                 # (from tmin = 0 only: event times of order 1e-9 added to a start time of order 1 would tie in floating point)
-                sc = r.choice([1e-10, 1e8])
+                sc = r.choice([1e-10, 1e8, 1e-14, 1e-30])
                 c['tau'], c['gamma'] = c['tau'] * sc, c['gamma'] * sc
                 if c['tmax'] != 'inf' and c['tmax'] != 0:
                     c['tmax'] = c['tmin'] + (c['tmax'] - c['tmin']) / sc
